@@ -39,10 +39,10 @@ theorem inv_items : ∀ c : Cond, NamesOk c → printable c = true → Inv (item
       have hne : subs ≠ [] := by
         simp only [printable, Bool.and_eq_true, Bool.not_eq_true', List.isEmpty_eq_false_iff] at hp; exact hp.1
       have hpl : printableL subs = true := by simp only [printable, Bool.and_eq_true] at hp; exact hp.2
-      have hj := inv_join subs hne (by simpa [NamesOk, NamesOkL, Cond.profiles] using h) hpl "or" " or ".toList sep_or
+      have hj := inv_join subs hne (by simpa [NamesOk, NamesOkL, Cond.profiles] using h) hpl "or" orSep sep_or
         inv_or
       simp only [items, printChars, printTexts]
-      by_cases hcond : (isSingleton subs && subs.all Cond.isGroup && !((printJoin " or ".toList subs).head? == some '(')) = true
+      by_cases hcond : (isSingleton subs && subs.all Cond.isGroup && !((printJoin orSep subs).head? == some '(')) = true
       · -- D26: a lone group keeps its parentheses
         have htest : (isSingleton subs && subs.all Cond.isGroup && !((joinTexts "or" subs).head? == some "(")) = true := by
           match subs, hcond, h with
@@ -60,7 +60,7 @@ theorem inv_items : ∀ c : Cond, NamesOk c → printable c = true → Inv (item
           (Or.inr (fs_sym _ _))) (Or.inl (lw2 _ _))).append inv_close (Or.inr (fs_sym _ _)))).pre neg
         simp only [hcond, htest, ↓reduceIte]
         simpa using this
-      · have hcond' : (isSingleton subs && subs.all Cond.isGroup && !((printJoin " or ".toList subs).head? == some '(')) = false := by
+      · have hcond' : (isSingleton subs && subs.all Cond.isGroup && !((printJoin orSep subs).head? == some '(')) = false := by
           simpa using hcond
         have htest : (isSingleton subs && subs.all Cond.isGroup && !((joinTexts "or" subs).head? == some "(")) = false := by
           match subs, hcond', h with
@@ -83,7 +83,7 @@ theorem inv_items : ∀ c : Cond, NamesOk c → printable c = true → Inv (item
       have hx : NamesOk x := by intro n hn; exact h n (by simp [Cond.profiles, profilesL, hn])
       have hpx : printable x = true := by simpa [printable, printableL] using hp
       have ix := inv_items x hx hpx
-      have hpj : printJoin " or ".toList [x] = printChars x := by simp [printJoin]
+      have hpj : printJoin orSep [x] = printChars x := by simp [printJoin]
       have hjt : joinTexts "or" [x] = printTexts x := by simp [joinTexts]
       have hji : joinI "or" [x] = items x := by simp [joinI]
       by_cases hc : Cond.isConj x = true
@@ -97,7 +97,7 @@ theorem inv_items : ∀ c : Cond, NamesOk c → printable c = true → Inv (item
         rw [← lit_notsp] at hfc
         simp only [items, printChars, printTexts, isSingleton, List.all_cons, List.all_nil, hc', Bool.and_true,
           Bool.not_false, Bool.true_and, ↓reduceIte, hpj, hjt, hji]
-        by_cases hd : (neg && "not ".toList.isPrefixOf (printChars x)) = true
+        by_cases hd : (neg && notSpC.isPrefixOf (printChars x)) = true
         · have hd2 : (neg && (printTexts x).head? == some "not") = true := by rw [← hfc]; exact hd
           have hneg : neg = true := by simp only [Bool.and_eq_true] at hd; exact hd.1
           subst hneg
@@ -105,14 +105,14 @@ theorem inv_items : ∀ c : Cond, NamesOk c → printable c = true → Inv (item
             (Or.inr (fs_sym _ _)))
           simp only [hd, hd2, ↓reduceIte, lit_notpar]
           simpa [notSp] using this
-        · have hd' : (neg && "not ".toList.isPrefixOf (printChars x)) = false := Bool.eq_false_iff.mpr hd
+        · have hd' : (neg && notSpC.isPrefixOf (printChars x)) = false := Bool.eq_false_iff.mpr hd
           have hd2 : (neg && (printTexts x).head? == some "not") = false := by rw [← hfc]; exact hd'
           simp only [hd', hd2, Bool.false_eq_true, ↓reduceIte]
           exact ix.pre neg
   | .group neg (x :: y :: r), h, hp => by
       have hpl : printableL (x :: y :: r) = true := by simp only [printable, Bool.and_eq_true] at hp; exact hp.2
       have hj := inv_join (x :: y :: r) (by simp) (by simpa [NamesOk, NamesOkL, Cond.profiles] using h) hpl "or"
-        " or ".toList sep_or inv_or
+        orSep sep_or inv_or
       have := ((inv_open.append hj (Or.inl (by simp [lastWord, S, Word.isWord]))).append inv_close
         (Or.inr (fs_sym _ _))).pre neg
       simp only [items, printChars, printTexts, isSingleton, Bool.false_and, Bool.false_eq_true, ↓reduceIte]
@@ -121,7 +121,7 @@ theorem inv_items : ∀ c : Cond, NamesOk c → printable c = true → Inv (item
       have hne : subs ≠ [] := by
         simp only [printable, Bool.and_eq_true, Bool.not_eq_true', List.isEmpty_eq_false_iff] at hp; exact hp.1
       have hpl : printableL subs = true := by simp only [printable, Bool.and_eq_true] at hp; exact hp.2
-      have hj := inv_join subs hne (by simpa [NamesOk, NamesOkL, Cond.profiles] using h) hpl "and" " and ".toList sep_and
+      have hj := inv_join subs hne (by simpa [NamesOk, NamesOkL, Cond.profiles] using h) hpl "and" andSep sep_and
         inv_and
       simpa [items, printChars, printTexts] using hj
 theorem inv_join : ∀ (l : List Cond), l ≠ [] → NamesOkL l → printableL l = true → ∀ (op : String) (sep : List Char),
